@@ -8,6 +8,7 @@ import CoapVerif.Lemmas.ObserveStale
 import CoapVerif.Lemmas.ObserveKey
 import CoapVerif.Lemmas.ObserveCon
 import CoapVerif.Lemmas.ObserveFrame
+import CoapVerif.Lemmas.ObserveToken
 /-
 C11 — Observe: registered observers get fresh, ordered notifications until cancelled.
 Property theorems about M (CoapVerif/Model/Observe.lean), which T2 ties to the compiled libcoap on every run.
@@ -1143,5 +1144,145 @@ example : ((handleRst sharedSt 0 2).res.map fun y => y.subs.map fun s => (s.sess
     (sharedSt.res.map fun y => y.subs.map fun s => (s.sess, s.token)) = [[], [(1, 128), (0, 128)]] ∧
     ((handleRst sharedSt 0 2).sendq.map fun q => (q.sess, q.mid, q.token)) = [(1, 2, 128)] ∧
     (sharedSt.sendq.map fun q => (q.sess, q.mid, q.token)) = [(1, 2, 128), (0, 2, 128)] := by decide
+
+/-! ### the observer's TOKEN is the whole byte string, its length included (Model/ObserveToken.lean, Lemmas/ObserveToken.lean)
+M's `token : Nat` is `tokNat` of the token bytes (injective, decoded by `natTok`); the comparison `==` on it in
+coap_find_observer / coap_remove_failed_observers (`matchST`) and coap_cancel_all_messages (`matchQT`) is the transcription
+`binaryEqual` of coap_binary_equal on the bytes: equal LENGTH and equal bytes.  So a request, Reset or failed notification that
+names the empty token, or a token that is a proper prefix of another token of the same client, is about another observer. -/
+
+/-- coap_binary_equal answers yes exactly for equal byte strings -/
+theorem binary_equal_exact (a b : List Nat) : binaryEqual a b = true ↔ a = b := binaryEqual_iff a b
+
+/-- two tokens are the same token in M iff they are the same byte string -/
+theorem token_identity_exact (t u : List Nat) (ht : ∀ x ∈ t, x < 256) (hu : ∀ x ∈ u, x < 256) : tokNat t = tokNat u ↔ t = u :=
+  ⟨tokNat_injective t u ht hu, fun h => by rw [h]⟩
+
+/-- M's entry lookup is coap_find_observer's test on the bytes: same session and coap_binary_equal(token, entry's token) -/
+theorem token_compare_is_binary_equal (c : Nat) (t u : List Nat) (s : Sub) (ht : ∀ x ∈ t, x < 256) (hu : ∀ x ∈ u, x < 256)
+    (hs : s.token = tokNat u) : matchST c (tokNat t) s = (s.sess == c && binaryEqual t (natTok s.token)) :=
+  matchST_is_binary_equal c t u s ht hu hs
+
+/-- the same for the retransmission queue (coap_cancel_all_messages) -/
+theorem token_compare_queue_is_binary_equal (c : Nat) (t u : List Nat) (q : QNode) (ht : ∀ x ∈ t, x < 256) (hu : ∀ x ∈ u, x < 256)
+    (hq : q.token = tokNat u) : matchQT c (tokNat t) q = (q.sess == c && binaryEqual u t) :=
+  matchQT_is_binary_equal c t u q ht hu hq
+
+/-- an entry whose token merely STARTS with the bytes named (any entry, when the empty token is named) is not the one named -/
+theorem prefix_token_is_other_observer (c : Nat) (t : List Nat) (x : Nat) (xs : List Nat) (s : Sub)
+    (ht : ∀ b ∈ t ++ x :: xs, b < 256) (hs : s.token = tokNat (t ++ x :: xs)) : matchST c (tokNat t) s = false := by
+  rw [matchST_is_binary_equal c t (t ++ x :: xs) s (fun b hb => ht b (List.mem_append_left _ hb)) ht hs]
+  unfold findObserverMatch
+  rw [hs, natTok_tokNat _ ht, binaryEqual_proper_prefix, Bool.and_false]
+
+/-- the entries of client c under the token with bytes u, on every resource -/
+def underToken (c : Nat) (u : List Nat) (st : State) : List (Nat × Bool × List Sub) :=
+  subsWhere (fun s => matchST c (tokNat u) s) st
+
+theorem other_token_not_named (c : Nat) (t u : List Nat) (ht : ∀ x ∈ t, x < 256) (hu : ∀ x ∈ u, x < 256) (hne : t ≠ u) :
+    ∀ s, matchST c (tokNat t) s = true → (fun s => matchST c (tokNat u) s) s = false := by
+  intro s hs
+  unfold matchST at hs ⊢
+  simp only [Bool.and_eq_true, beq_iff_eq] at hs
+  rw [Bool.eq_false_iff]
+  intro h2
+  simp only [Bool.and_eq_true, beq_iff_eq] at h2
+  exact hne (tokNat_injective t u ht hu (hs.2.symm.trans h2.2))
+
+/-- coap_delete_observer(resource, session, t) — error response to a request, error while notifying — leaves the client's
+    observation under every other token u (longer, shorter, empty) exactly as it was, all fields included -/
+theorem other_token_survives_delete (st : State) (r c : Nat) (t u : List Nat) (ht : ∀ x ∈ t, x < 256) (hu : ∀ x ∈ u, x < 256)
+    (hne : t ≠ u) : underToken c u (deleteObserver st r c (tokNat t)) = underToken c u st :=
+  deleteObserver_keeps _ st r c (tokNat t) (other_token_not_named c t u ht hu hne)
+
+/-- a Reset from client c attributed to token t (queued Confirmable, or the entry whose latest message id is named) -/
+theorem other_token_survives_reset (st : State) (c mid : Nat) (t u : List Nat) (ht : ∀ x ∈ t, x < 256) (hu : ∀ x ∈ u, x < 256)
+    (hne : t ≠ u) (hr : rstToken st c mid = some (tokNat t)) : underToken c u (handleRst st c mid) = underToken c u st := by
+  apply handleRst_keeps
+  intro tok htok
+  rw [hr] at htok
+  cases htok
+  exact other_token_not_named c t u ht hu hne
+
+/-- giving up on a Confirmable notification sent under token t (coap_handle_failed_notify) -/
+theorem other_token_survives_failed_notify (st : State) (c : Nat) (t u : List Nat) (ht : ∀ x ∈ t, x < 256) (hu : ∀ x ∈ u, x < 256)
+    (hne : t ≠ u) : underToken c u (handleFailedNotify st c (tokNat t)) = underToken c u st :=
+  handleFailedNotify_keeps _ st c (tokNat t) (other_token_not_named c t u ht hu hne) (fun _ _ => rfl)
+
+/-- an Observe=1 request with token t for a target with cache key `key`: the observation under another token u stays unless it is
+    the one with that very cache key (RFC 7641 §3.6 lets the server match the cancellation by target) -/
+theorem other_token_survives_cancel_request (st : State) (r c key : Nat) (con : Bool) (mid : Nat) (t u : List Nat)
+    (ht : ∀ x ∈ t, x < 256) (hu : ∀ x ∈ u, x < 256) (hne : t ≠ u)
+    (hk : ∀ y ∈ st.res, ∀ old ∈ y.subs, matchSK c key old = true → old.token ≠ tokNat u) :
+    underToken c u (request st (some 1) c r (tokNat t) key con mid).1 = underToken c u st := by
+  have hdr : underToken c u (deleteObserverRequest (rxSession st c) r c (tokNat t) key) = underToken c u st := by
+    refine (deleteObserverRequest_keeps _ (rxSession st c) r c (tokNat t) key (other_token_not_named c t u ht hu hne) ?_).trans rfl
+    intro y hy old hold hm s hs
+    unfold matchST at hs ⊢
+    simp only [Bool.and_eq_true, beq_iff_eq] at hs
+    rw [Bool.eq_false_iff]
+    intro h2
+    simp only [Bool.and_eq_true, beq_iff_eq] at h2
+    exact hk y hy old hold hm (hs.2.symm.trans h2.2)
+  unfold request
+  dsimp only
+  split
+  · rfl
+  · split
+    · simp only [Option.isSome_some, if_true]
+      unfold txStamp
+      show underToken c u (deleteObserver _ r c (tokNat t)) = _
+      rw [other_token_survives_delete _ r c t u ht hu hne]
+      exact hdr
+    · exact hdr
+
+/-- coap_add_observer: afterwards the resource lists an entry of (session, token) — and when no entry of the session carried
+    exactly these token bytes before (a longer or shorter token of the client does not count, `prefix_token_is_other_observer`),
+    it is a NEW entry at the head of the list -/
+theorem registration_lists_token (y : Res) (c tok key m : Nat) : (addToRes y c tok key m).subs.any (matchST c tok) = true := by
+  unfold addToRes
+  split
+  · assumption
+  · simp [matchST]
+
+theorem registration_under_new_token_adds (y : Res) (c tok key m : Nat) (h : ∀ s ∈ y.subs, matchST c tok s = false) :
+    ∃ rest, (addToRes y c tok key m).subs =
+      { sess := c, token := tok, key := key, nonCnt := 0, failCnt := 0, dirty := false, mid := m, lastVer := none } :: rest := by
+  unfold addToRes
+  split
+  · rename_i hany
+    rw [List.any_eq_true] at hany
+    obtain ⟨s, hs, hm⟩ := hany
+    rw [h s hs] at hm
+    cases hm
+  · exact ⟨_, rfl⟩
+
+/-- witnesses.  (1) what a length-blind comparison (memcmp over the length of the token named) would say, and what
+    coap_binary_equal says; (2) client 0 observes r0 under token a1b2, then sends Observe=1 with the EMPTY token for another
+    target: the entry stays and the next change is notified under a1b2; (3) tokens 51 (on ?q, key 7) and 5162 (key 5) of one
+    client, Observe=1 for 51: 5162 stays listed and is notified, 51 is gone; (4) a registration under token 51 while 5162 is
+    listed is a NEW entry -/
+example : memcmpEq 1 [0x51] [0x51, 0x62] = true ∧ binaryEqual [0x51] [0x51, 0x62] = false ∧ memcmpEq 0 [] [0xa1, 0xb2] = true ∧
+    binaryEqual [] [0xa1, 0xb2] = false ∧ binaryEqual [0, 0] [0, 0] = true ∧ binaryEqual [0] [0, 0] = false := by decide
+example : natTok (tokNat [0x51, 0x62]) = [0x51, 0x62] ∧ natTok (tokNat []) = [] ∧ natTok (tokNat [0, 0]) = [0, 0] ∧
+    tokNat [0] ≠ tokNat [0, 0] ∧ tokNat [] ≠ tokNat [0] := by
+  refine ⟨natTok_tokNat _ (by decide), natTok_tokNat _ (by decide), natTok_tokNat _ (by decide), by decide, by decide⟩
+def tokStart : State := init [mkRes 0 false false 0] 30000
+def emptyTokenEvents : List Event := [.reg 0 0 (tokNat [0xa1, 0xb2]) 5 true 1, .can 0 0 (tokNat []) 7 true 2, .chg 0, .adv 0]
+example : ((run tokStart emptyTokenEvents).1.res.map fun y => y.subs.map fun s => (s.sess, s.token)) = [[(0, tokNat [0xa1, 0xb2])]] ∧
+    (((run tokStart emptyTokenEvents).2.filter fun o => isNotif o).map fun o => (o.c, o.token, o.obs)) = [(0, tokNat [0xa1, 0xb2], some 1)] := by
+  decide
+def prefixTokenEvents : List Event :=
+  [.reg 0 0 (tokNat [0x51]) 7 true 1, .reg 0 0 (tokNat [0x51, 0x62]) 5 true 2, .can 0 0 (tokNat [0x51]) 7 true 3, .chg 0, .adv 0]
+example : ((run tokStart (prefixTokenEvents.take 2)).1.res.map fun y => y.subs.map fun s => (s.sess, s.token)) =
+      [[(0, tokNat [0x51, 0x62]), (0, tokNat [0x51])]] ∧
+    ((run tokStart prefixTokenEvents).1.res.map fun y => y.subs.map fun s => (s.sess, s.token)) = [[(0, tokNat [0x51, 0x62])]] ∧
+    (((run tokStart prefixTokenEvents).2.filter fun o => isNotif o).map fun o => (o.c, o.token, o.obs)) = [(0, tokNat [0x51, 0x62], some 1)] := by
+  decide
+example : ∀ s ∈ ((run tokStart [.reg 0 0 (tokNat [0x51, 0x62]) 5 true 2]).1.res.flatMap fun y => y.subs), matchST 0 (tokNat [0x51]) s = false := by
+  decide
+example : underToken 0 [0x51, 0x62] (request (run tokStart (prefixTokenEvents.take 2)).1 (some 1) 0 0 (tokNat [0x51]) 7 true 3).1 =
+    underToken 0 [0x51, 0x62] (run tokStart (prefixTokenEvents.take 2)).1 :=
+  other_token_survives_cancel_request _ 0 0 7 true 3 [0x51] [0x51, 0x62] (by decide) (by decide) (by decide) (by decide)
 
 end Coap.C11
